@@ -48,6 +48,12 @@ fn cases(ctx: &Ctx, curve: &str) -> Vec<Case> {
             v.push(Case { curve: curve.into(), name: format!("large-n1={},n2={}", a, b), seed: s, cfg: GenCfg { q: 3, depth: 1, ..GenCfg::simple(a, b) }, cap_p: 0, cap_v: (s % 2) as u8 * 3, cross_prover: false });
         }
     }
+    // sessions: several statements on ONE transcript with ONE growing generator object per role,
+    // proofs serialised and re-parsed before verification
+    for i in 0..ctx.n(36, 600) {
+        let s = r.u64();
+        v.push(Case { curve: curve.into(), name: format!("session-{}", i), seed: s, cfg: GenCfg::simple(0, 0), cap_p: (s % 3) as u8, cap_v: ((s >> 8) % 3) as u8, cross_prover: false });
+    }
     let n = ctx.n(500, 8000);
     for i in 0..n {
         let big = i % 10 == 0;
@@ -58,7 +64,78 @@ fn cases(ctx: &Ctx, curve: &str) -> Vec<Case> {
     v
 }
 
+/// Programs of a session: 2..=5 statements of mixed sizes (the generator objects have to grow
+/// between proofs), each satisfied on its own.
+pub fn session_programs<G: AffineRepr>(env: &Env<G>, seed: u64, max_g: usize) -> Result<(Vec<crate::dsl::Program>, Vec<usize>), String> {
+    let mut r = R::new(seed ^ 0x5e55);
+    let k = 2 + (r.u64() % 4) as usize;
+    let mut progs = vec![];
+    let mut need = vec![];
+    for i in 0..k {
+        let lim = match r.u64() % 4 {
+            0 => 2,
+            1 => 9,
+            2 => 20,
+            _ => max_g,
+        };
+        let mut cfg = random_cfg(&mut r, lim);
+        cfg.user_data = r.chance(1, 2);
+        let s = r.u64();
+        let prog = gen_program(s, &cfg);
+        let po = prove::<G>(env, &prog, &[], &env.bp, s ^ 1);
+        if po.proof.is_err() || !po.st.model.satisfied(true) {
+            return Err(format!("stand-alone run of session member {} fails or is unsatisfied (see the non-session cases)", i));
+        }
+        need.push((po.st.model.n1() + po.st.model.n2()).next_power_of_two());
+        progs.push(prog);
+    }
+    Ok((progs, need))
+}
+
+fn run_session<G: AffineRepr>(env: &Env<G>, c: &Case) -> CaseOut {
+    let mut o = CaseOut::new();
+    let (progs, need) = match session_programs::<G>(env, c.seed, 40) {
+        Ok(x) => x,
+        Err(e) => {
+            o.inconclusive = Some(e);
+            return o;
+        }
+    };
+    let parties = 1 + c.cap_v as usize;
+    let so = crate::interp::cur::session::<G>(&progs, &need, &env.pc, c.seed ^ 0x9, c.cap_p, parties, None);
+    o.count("sessions", 1);
+    o.count("session-members", progs.len() as u64);
+    o.sig(format!("{}|session|k={}|need={:?}|mode={}|parties={}", env.curve, progs.len(), need, c.cap_p, parties));
+    for (i, p) in so.prove.iter().enumerate() {
+        if let Err(e) = p {
+            o.violate("session-prove-err", format!("session member {} of {} (satisfied, proves stand-alone) fails to prove on the shared transcript / grown generators: {}", i, progs.len(), err_name(e)), json!({"programs": progs, "need": need, "caps_prover": so.caps_p}));
+            return o;
+        }
+    }
+    for (i, v) in so.in_order.iter().enumerate() {
+        match v {
+            Ok(()) => o.count("session-member-accepted", 1),
+            Err(e) => {
+                o.violate("session-verify-err", format!("session member {} of {}: proof made on the shared transcript with a grown generator object, re-parsed from its bytes, is not accepted in the same position by a verifier whose generator object grew differently: {}", i, progs.len(), err_name(e)), json!({"programs": progs, "need": need, "caps_prover": so.caps_p, "caps_verifier": so.caps_v, "reparse_failed": so.reparse_failed}));
+                return o;
+            }
+        }
+    }
+    match so.probes_equal {
+        Some(true) => o.count("session: transcripts in step at the end", 1),
+        Some(false) => o.count("note: prover and verifier transcripts differ after the session (see C06)", 1),
+        None => {}
+    }
+    if o.sample.is_none() && c.seed % 7 == 0 {
+        o.sample = Some(json!({"curve": env.curve, "session_members": progs.len(), "padded_sizes": need, "caps_prover": so.caps_p, "caps_verifier": so.caps_v, "verdict": "all accepted in order"}));
+    }
+    o
+}
+
 fn run_case<G: AffineRepr>(env: &Env<G>, c: &Case) -> CaseOut {
+    if c.name.starts_with("session-") {
+        return run_session::<G>(env, c);
+    }
     let mut o = CaseOut::new();
     let prog = gen_program(c.seed, &c.cfg);
     let total = c.cfg.n1 + c.cfg.n2;
